@@ -360,11 +360,11 @@ text::~text()
 }
 bool text::set_value(const char *v)
 {
-	return mpt_string_set(&_value, v);
+	return mpt_string_set(&_value, v) >= 0;
 }
 bool text::set_font(const char *v)
 {
-	return mpt_string_set(&_font, v);
+	return mpt_string_set(&_font, v) >= 0;
 }
 int text::set(metatype &src)
 {
